@@ -964,6 +964,9 @@ func (s *Sess) Shadow(tmp string) {
 		if err := CopyDir(s.Opt.Dir, tmp); err != nil {
 			panic("harness: copy failed: " + err.Error())
 		}
+		if k := os.Getenv("VERIF_KEEP_SHADOW_AT"); k != "" && k == fmt.Sprint(s.R.N+1) {
+			CopyDir(tmp, os.Getenv("VERIF_KEEP_SHADOW_DIR")) // debugging aid: keep the copy taken for trace line k
+		}
 		o, err := ObserveCopy(s.Opt, tmp, s.U)
 		e["err"] = err != nil
 		if err != nil {
